@@ -264,3 +264,4 @@ more('C02', 'sibling agreement on the digit type', 'C02.o every 8-bit array of m
 more('C02', 'sibling agreement of the two confusion routines', 'C02.p each routine reads the row digits from the array it writes (entries of a confusion map act in sequence on both paths)')
 more('C18', 'unrolled-view rule on per-key shape derivation', 'C18.o per-key shapes derived with the one-key-per-operation protocols walk the operations sub-circuits stand for')
 more('C06', 'conflict-relation coherence of the merge primitive', 'C06.r the moment a component may merge into is bounded by qubits, measurement-vs-control keys both ways and measurement-vs-measurement of one key')
+more('C06', 'position-not-value rule on terminal measurements', 'C06.s consumers of find_terminal_measurements keep the moment index of every pair')
